@@ -18,7 +18,7 @@ claim('C09', 'Proof of the round-trip postcondition on the real MQ.frames2topicm
 claim('C01', 'Proof, for every arrival order / delay / loss / skip / restart history (one more message of arbitrary source, id, topic and kind is universally quantified), '
       'that the real ZMQReceiver.recv only returns sets in which every synchronized source contributed exactly the subscribed topics it published under the returned id: '
       'inductive invariant of its three loops + postconditions at return; one id and one topics list per ZMQSender.send; MQ.recv/MQ.send carry the received id to the next '
-      'publish; rejoin lemma; calls entered after a timed-out call start from the receiver object invariant (sources hold sets of one recorded id), which every timed-out return re-establishes. Shape-bounded: 1..2 (thorough 3) sources per receiver, all/explicit/* subscriptions.', '6-C01')
+      'publish; rejoin lemma; calls entered after a timed-out call start from the receiver object invariant (sources hold sets of one recorded id), which every timed-out return re-establishes; the first call starts from the state the real ZMQReceiver.__init__ / Sender.__init__ / new_recv leave (InitStateUnit). Shape-bounded: 1..2 (thorough 3) sources per receiver, all/explicit/* subscriptions.', '6-C01')
 claim('C02', 'Proof that ids returned by one consumer object strictly increase (recv returns >= prev_id+1 / the given state and records it) and that one publisher object never '
       'publishes an id twice (min_send_id monotone, publish uses id >= it and sets id+1), MQ hands states over correctly; wire lemmas on the real encode/decode/subscribe '
       'expressions (z3+cvc5 strings): topic survives the wire, a topic is delivered iff the subscription names it, hidden topics only via * or by name, topic_map applied once. '
